@@ -220,3 +220,82 @@ func freshSpeciesValues(p *Prog, sums *Summaries, fn *ssa.Function) []ssa.Value 
 	})
 	return out
 }
+
+// definitelyNonNil: v is never nil - a fresh object, a value boxed into an interface, or the
+// result of a library function that never returns a nil error (nonNilErrorMakers, narrow.go).
+func definitelyNonNil(v ssa.Value) bool {
+	switch y := v.(type) {
+	case *ssa.Alloc, *ssa.MakeInterface, *ssa.MakeSlice, *ssa.MakeMap, *ssa.MakeClosure:
+		return true
+	case *ssa.Call:
+		if n, _ := calleeName(&y.Call); nonNilErrorMakers[n] {
+			return true
+		}
+	}
+	return false
+}
+
+// pathContradictsNil: the path takes a branch `x == nil` (or the false side of `x != nil`) at a
+// point where x, as it is on this very path, is a value that is never nil - or the non-nil side
+// where x is the constant nil. No execution follows such a path. This is what a helper's
+// `return errors.New(...)` followed by the caller's `if err != nil { return err }` looks like once
+// the helper is expanded in place: the result variable is a phi, and the edge that carries the
+// fresh error cannot continue on the `err == nil` side.
+func pathContradictsNil(ip *IterPath) bool {
+	for i := 0; i+1 < len(ip.Blocks); i++ {
+		b := ip.Blocks[i]
+		iff, ok := b.Instrs[len(b.Instrs)-1].(*ssa.If)
+		if !ok || len(b.Succs) != 2 || b.Succs[0] == b.Succs[1] {
+			continue
+		}
+		outcome := ip.Blocks[i+1] == b.Succs[0]
+		if !outcome && ip.Blocks[i+1] != b.Succs[1] {
+			continue
+		}
+		c, ok := iff.Cond.(*ssa.BinOp)
+		if !ok || (c.Op != token.EQL && c.Op != token.NEQ) {
+			continue
+		}
+		x, y := c.X, c.Y
+		if k, isK := x.(*ssa.Const); isK && k.Value == nil {
+			x, y = y, x
+		}
+		if k, isK := y.(*ssa.Const); !isK || k.Value != nil {
+			continue
+		}
+		switch x.Type().Underlying().(type) {
+		case *types.Pointer, *types.Interface, *types.Slice, *types.Map, *types.Chan, *types.Signature:
+		default:
+			continue // the zero constant of a type that has no nil
+		}
+		saysNil := (c.Op == token.EQL) == outcome
+		xv := (&IterPath{Blocks: ip.Blocks[:i+1], End: "partial"}).Resolve(x)
+		if ct, isCT := xv.(*ssa.ChangeType); isCT {
+			xv = ct.X
+		}
+		if saysNil && definitelyNonNil(xv) {
+			return true
+		}
+		if k, isK := xv.(*ssa.Const); isK && k.Value == nil && !saysNil {
+			return true
+		}
+	}
+	return false
+}
+
+// expandedHelper: fn (or the function it is nested in) is a function the pinned tree does not have,
+// it is not exported, and nothing in the repository refers to it any more - no static call, no use as
+// a value, no interface call that could dispatch to it. That is what remains of a helper introduced
+// by a refactoring after the source normalisation expanded every call of it in place: its body is
+// examined where it was expanded, as part of its callers; the declaration itself is never executed.
+func expandedHelper(p *Prog, fn *ssa.Function) bool {
+	for fn.Parent() != nil {
+		fn = fn.Parent()
+	}
+	obj, ok := fn.Object().(*types.Func)
+	if !ok || obj.Exported() || PinnedFuncs()[obj.FullName()] {
+		return false
+	}
+	sites, closed := repoCallSites(p, fn)
+	return closed && len(sites) == 0
+}
